@@ -200,8 +200,12 @@ class Runner:
         c.verdict = (r[0] == 1, r[1])
         return c.verdict
 
-    def fails_for(self, versions):
+    def fails_for(self, versions, seconds):
+        deadline = time.time() + seconds         # shrinking is bounded in wall time (each probe = two compilations)
+
         def fails(prog):
+            if time.time() > deadline:
+                return False
             c = Case("shrink", prog)
             self.observe([c], versions=sorted(set(versions + [DEFAULT]), key=VERSIONS.index), oracle=False)
             if not c.t[DEFAULT].accepted:
@@ -429,6 +433,8 @@ def witness_programs():
 def gen_cases(ctx):
     rng = ctx.rng
     k = float(os.environ.get("C13_SCALE", "1"))     # < 1 shortens a run (mutation self-tests on a loaded machine)
+    if k != 1:
+        ctx.notes.append("run shortened by C13_SCALE=%s (fraction of the tier's generated programs)" % k)
     n_main, n_expr, n_err = int(k * ctx.scale(22, 700)), int(k * ctx.scale(26, 600)), int(k * ctx.scale(8, 200))
     cases = [Case("witness", prog, name) for name, prog in witness_programs()]
     for _ in range(n_main):
@@ -522,7 +528,7 @@ def selection_check(ctx, runner, sample):
 
 def magic_cross_check(ctx, runner, cases):
     """--py-command P and --py-magic-num <magic of P> must select the same target: identical code objects"""
-    todo = [c for c in cases if c.t[DEFAULT].accepted][:ctx.scale(6, 40)]
+    todo = [c for c in cases if c.t[DEFAULT].accepted and c.verdict and c.verdict[0]][:ctx.scale(6, 40)]
     bad = []
     jobs = [(c, v) for c in todo for v in VERSIONS if c.t[v].accepted]
     names = {}
@@ -572,13 +578,16 @@ def run_with(ctx, runner, proof):
             n_rej += 1
             if ctx.cov.get("rejected_sample") is None:
                 ctx.cov["rejected_sample"] = {"erg": c.erg_src, "diagnostics": d.diag[-800:]}
-            ctx.case(c.sx, nontrivial=False)
+            for v in VERSIONS:
+                ctx.case([c.sx, v], nontrivial=False)
             continue
         ok, diff = runner.judge(c)
         ctx.count("outcome:" + ((d.obs[2] or "normal exit") if d.accepted else "not compiled for the default target"))
-        ctx.case(c.sx, nontrivial=bool(d.accepted and c.model and c.model[0]),
-                 sample={"erg": c.erg_src, "stdout": (d.obs[0][:200] if d.accepted else None),
-                         "targets equal to 3.11": [v for v in VERSIONS if MINOR[v] not in diff]})
+        # one case per element of the quantifier's cross product (program, target)
+        for v in VERSIONS:
+            ctx.case([c.sx, v], nontrivial=bool(d.accepted and c.t[v].accepted and c.model and c.model[0]),
+                     sample=({"erg": c.erg_src, "stdout": (d.obs[0][:200] if d.accepted else None),
+                              "targets equal to 3.11": [w for w in VERSIONS if MINOR[w] not in diff]} if v == DEFAULT else None))
         if not ok:
             failing.append((c, ["3.%d" % m for m in diff]))
         elif d.accepted and c.oracle == c.model and d.obs != c.oracle:
@@ -617,7 +626,7 @@ def run_with(ctx, runner, proof):
                       "the independent Python oracle and the Coq evaluator disagree on %d programs (the model or the oracle is wrong)" % n_om,
                       case=c.as_json(), impl={"oracle": c.oracle}, model={"sem": c.model}, no_input=True)
     for c, vers in failing[:3]:
-        small = G.shrink(c.prog, runner.fails_for(vers), budget=ctx.scale(60, 200))
+        small = G.shrink(c.prog, runner.fails_for(vers, ctx.scale(240, 900)), budget=ctx.scale(60, 200))
         sc = Case("shrunk", small)
         runner.observe([sc])
         ok, diff = runner.judge(sc)
@@ -650,6 +659,15 @@ def run_with(ctx, runner, proof):
             else:
                 ctx.notes.append("NOTE stale-known-finding far-jump: the witness no longer reproduces")
                 print("NOTE stale-known-finding property=C13 far-jump")
+    # a program on which the model differs from erg for the DEFAULT target too is not a version difference: that is the
+    # subject of C01's tie (model of the version-independent part / the generator's wrap prediction); reported as a note
+    common = {id(c) for c, v, w, mm, rr in mism if v == DEFAULT}
+    if common:
+        first = next(w for c, v, w, mm, rr in mism if v == DEFAULT)
+        ctx.notes.append("NOTE %d program(s) on which the model differs from erg for the default target as well (C01's tie, not a "
+                         "version difference; first: %s)" % (len(common), first[:300]))
+        ctx.cov["bytecode_tie"]["programs differing for the default target too (C01's tie)"] = len(common)
+    mism = [m for m in mism if id(m[0]) not in common]
     anything = failing or oracle_diff or sel_bad or magic_bad
     if (mism or tab_bad or not proof.ok) and not anything:
         what, first = [], None
